@@ -51,9 +51,12 @@ theorem enc_injective {P Q : G} (h : PtCodec.enc P = PtCodec.enc Q) : P = Q := b
   rw [h, LawfulPtCodec.dec_enc Q] at this
   exact (Option.some.inj this).symm
 
+end
+
+section
+variable {F G : Type} [Field F] [AddCommGroup G] [Module F G]
 @[simp] theorem msm_nil_left (ps : List G) : msm ([] : List F) ps = 0 := by simp [msm]
 @[simp] theorem msm_cons_cons (s : F) (ss : List F) (p : G) (ps : List G) :
     msm (s :: ss) (p :: ps) = s • p + msm ss ps := by simp [msm]
-
 end
 end Zk
